@@ -5,6 +5,7 @@ import (
 	"encoding/binary"
 	"fmt"
 	"reflect"
+	"strings"
 	"time"
 
 	"github.com/golang/protobuf/proto"
@@ -637,6 +638,7 @@ type c16Unit struct {
 	lo, hi uint32 // subset masks [lo,hi)
 	univ   int
 	hist   []int // receiver history
+	idx    []int32
 }
 
 func c16Value(index int32, pattern int, width int) uint64 {
@@ -808,6 +810,37 @@ func runC16(r *h.Run) {
 		rec(nil)
 		w.Sample(map[string]interface{}{"kind": u.kind, "invalid_sequences": "all index sequences of length <= 4 over {0,1,63,64,65,200} x element counts off by -3..3"})
 	})
+	// caller memory: every subset of 8 boundary positions x 5 construction forms;
+	// everything the caller passed in is overwritten after the build
+	r.Bounds["caller_memory"] = "all 256 subsets of {0,1,63,64,65,127,128,300} x " + fmt.Sprint(c16CallerForms)
+	r.Phase("caller-memory", func(emit func(u interface{}) bool) {
+		pos := []int32{0, 1, 63, 64, 65, 127, 128, 300}
+		for _, f := range c16CallerForms {
+			for m := 0; m < 256; m++ {
+				var ix []int32
+				for b, p := range pos {
+					if m>>uint(b)&1 == 1 {
+						ix = append(ix, p)
+					}
+				}
+				if !emit(c16Unit{kind: "caller-memory:" + f, idx: ix}) {
+					return
+				}
+			}
+		}
+	}, func(w *h.Worker, x interface{}) {
+		u := x.(c16Unit)
+		w.Begin(func() string { return "C16 " + u.kind })
+		w.Evals++
+		w.Tick()
+		w.StatesN++
+		if len(u.idx) >= 2 {
+			w.NontrivN++
+		}
+		if msg := evalC16CallerMemory(w, strings.TrimPrefix(u.kind, "caller-memory:"), u.idx); msg != "" {
+			w.Report(h.Viol{Sig: "array-caller-memory", Msg: msg, Kind: "c16", Case: c16Case{Kind: u.kind, Indexes: u.idx}, Unit: w.Unit()})
+		}
+	})
 	// receiver histories: every sequence of 1..3 fills of ONE generic receiver
 	// over 5 contents x {Init, proto.Unmarshal}, everything read after each fill
 	r.Bounds["receiver_histories"] = "sequences of 1..3 fills over 5 contents x {Init, proto.Unmarshal} per kind that has a generic form"
@@ -852,6 +885,163 @@ func runC16(r *h.Run) {
 			w.Sample(map[string]interface{}{"kind": u.kind, "receiver_history": u.hist})
 		}
 	})
+}
+
+// ---------- caller memory ----------
+
+var c16CallerForms = []string{"NewU32", "NewI64", "New([]uint16)", "preset Bytes{4} Init([][]byte)", "preset Bytes{3} Init([][]byte)"}
+
+// evalC16CallerMemory builds one array from caller-owned index and element
+// slices, then overwrites everything the caller passed in (the index slice, the
+// element slice, and for [][]byte elements the bytes of every element): the
+// array must still be the sparse map it was built as.
+func evalC16CallerMemory(w *h.Worker, form string, idx []int32) (msg string) {
+	defer func() {
+		if r := recover(); r != nil {
+			msg = fmt.Sprintf("panic: %v", r)
+		}
+	}()
+	ix := append([]int32{}, idx...)
+	ref := map[int32][]byte{}
+	valOf := func(i int32, width int) []byte {
+		b := make([]byte, width)
+		for j := range b {
+			b[j] = byte(int(i)*7 + j*31 + 1)
+		}
+		return b
+	}
+	var get func(i int32) ([]byte, bool)
+	var scribble func()
+	switch form {
+	case "NewU32":
+		el := make([]uint32, len(ix))
+		for j, i := range ix {
+			b := valOf(i, 4)
+			ref[i] = b
+			el[j] = binary.LittleEndian.Uint32(b)
+		}
+		a, err := array.NewU32(ix, el)
+		if err != nil {
+			return "constructor failed: " + err.Error()
+		}
+		get = func(i int32) ([]byte, bool) {
+			v, ok := a.Get(i)
+			if !ok {
+				return nil, false
+			}
+			b := make([]byte, 4)
+			binary.LittleEndian.PutUint32(b, v)
+			return b, true
+		}
+		scribble = func() {
+			for j := range el {
+				el[j] = 0xa5a5a5a5
+			}
+		}
+	case "NewI64":
+		el := make([]int64, len(ix))
+		for j, i := range ix {
+			b := valOf(i, 8)
+			ref[i] = b
+			el[j] = int64(binary.LittleEndian.Uint64(b))
+		}
+		a, err := array.NewI64(ix, el)
+		if err != nil {
+			return "constructor failed: " + err.Error()
+		}
+		get = func(i int32) ([]byte, bool) {
+			v, ok := a.Get(i)
+			if !ok {
+				return nil, false
+			}
+			b := make([]byte, 8)
+			binary.LittleEndian.PutUint64(b, uint64(v))
+			return b, true
+		}
+		scribble = func() {
+			for j := range el {
+				el[j] = -1
+			}
+		}
+	case "New([]uint16)":
+		el := make([]uint16, len(ix))
+		for j, i := range ix {
+			b := valOf(i, 2)
+			ref[i] = b
+			el[j] = binary.LittleEndian.Uint16(b)
+		}
+		a, err := array.New(ix, el)
+		if err != nil {
+			return "constructor failed: " + err.Error()
+		}
+		get = func(i int32) ([]byte, bool) {
+			v, ok := a.Get(i)
+			if !ok {
+				return nil, false
+			}
+			b := make([]byte, 2)
+			binary.LittleEndian.PutUint16(b, v.(uint16))
+			return b, true
+		}
+		scribble = func() {
+			for j := range el {
+				el[j] = 0xffff
+			}
+		}
+	default:
+		width := 4
+		if strings.Contains(form, "Bytes{3}") {
+			width = 3
+		}
+		el := make([][]byte, len(ix))
+		for j, i := range ix {
+			ref[i] = valOf(i, width)
+			el[j] = append([]byte{}, ref[i]...)
+		}
+		a := &array.Array{}
+		a.EltEncoder = encode.Bytes{Size: width}
+		if err := a.Init(ix, el); err != nil {
+			return "Init failed: " + err.Error()
+		}
+		get = func(i int32) ([]byte, bool) {
+			v, ok := a.Get(i)
+			if !ok {
+				return nil, false
+			}
+			return append([]byte{}, v.([]byte)...), true
+		}
+		scribble = func() {
+			for j := range el {
+				for x := range el[j] {
+					el[j][x] = 0x5a
+				}
+				el[j] = nil
+			}
+		}
+	}
+	for pass := 0; pass < 2; pass++ {
+		span := int32(0)
+		if len(idx) > 0 {
+			span = (idx[len(idx)-1]>>6 + 1) << 6 // (zero,false) is claimed within the bitmap span only
+		}
+		for i := int32(0); i < span; i++ {
+			want, present := ref[i]
+			v, ok := get(i)
+			w.Trans++
+			if ok != present || (ok && !bytes.Equal(v, want)) {
+				when := "right after the build"
+				if pass == 1 {
+					when = "after the caller overwrote the index and element slices it had passed in"
+				}
+				return fmt.Sprintf("%s, %s: Get(%d) = (%x,%v), want (%x,%v) | indexes %v", form, when, i, v, ok, want, present, idx)
+			}
+		}
+		for j := range ix {
+			ix[j] = 7
+		}
+		scribble()
+	}
+	return ""
 }
 
 // ---------- receiver histories ----------
@@ -941,6 +1131,12 @@ func replayC16(prop string, raw []byte) *h.Viol {
 		return &h.Viol{Msg: err.Error()}
 	}
 	w := h.NewRun(prop, "quick", 0, "model_checking", 0).W0()
+	if strings.HasPrefix(cj.Kind, "caller-memory:") {
+		if msg := evalC16CallerMemory(w, strings.TrimPrefix(cj.Kind, "caller-memory:"), cj.Indexes); msg != "" {
+			return &h.Viol{Sig: "array-" + cj.Kind, Msg: msg}
+		}
+		return nil
+	}
 	k := kindByName(cj.Kind)
 	var msg string
 	if cj.History != nil {
